@@ -1674,8 +1674,8 @@ def facet_oracle(env, items, info, m):
             out.append(O.Check('facet-undeclared', 'the constructor sets %s which the schema does not declare / zeep does not support' % k, False))
     n = env.v(info.nenum)
     out.append(O.Check('enumeration-count', 'enumeration: %d values emitted' % len(enums), smap(lambda k: k == len(enums), n, allowed=env.allowed)))
-    want_vals = ['A', 'b c']
-    for i, e in enumerate(enums[:2]):
+    want_vals = ['A', '', 'b c']
+    for i, e in enumerate(enums[:3]):
         out.append(O.Check('enumeration-value', 'enumeration value #%d' % i, RO.sym_eq(e, want_vals[i], env.allowed)))
     out += delegation_checks(env, items)
     return out
@@ -1736,10 +1736,10 @@ def c07(tier):
             s.parts['kani_on_generated_code'] = e1props.c07_generated_part(s.rep, tier)
             s.assumptions.append('thorough tier, obligation (a): Kani on the code generated for kani_gen/facets.xsd; alloc::fmt::format stubbed; one symbolic leaf per harness')
     return run_e2('C07', tier, body,
-                  bounds='(a) the code generated for smi/corpus/facets2.xsd (string length facets, enumeration, integer bounds on a text carrier, a simple type derived from a restricted simple '
-                         'type, required / optional / repeated members, attribute, nesting depth 2 through a repeated complex member) is compiled and its MIR executed with one symbolic leaf per '
-                         'position (13 positions, 21 strings each incl. absent for optional members; the symbolic leaf is the second element of a repeated member) and with two symbolic leaves '
-                         '(3 pairs quick, all 78 pairs thorough); the Ok/Err outcome of every path is compared by z3 with the facets the schema declares (own and inherited). '
+                  bounds='(a) the code generated for smi/corpus/facets2.xsd (string length facets, enumeration, integer bounds on a text carrier, a chain of three simple types each derived from the previous one, ' 
+                         ' required / optional / repeated members, attribute, nesting depth 2 through a repeated complex member) is compiled and its MIR executed with one symbolic leaf per '
+                         'position (15 positions, 21 strings each incl. absent for optional members; the symbolic leaf is the second element of a repeated member) and with two symbolic leaves '
+                         '(3 pairs quick, all 105 pairs thorough); the Ok/Err outcome of every path is compared by z3 with the facets the schema declares (own and inherited). '
                          '(b) restricted simple type with each of the 7 supported facets absent or one of 3-4 values (negative, i32 extremes), as child elements or as attributes of xs:restriction, '
                          '0..2 enumeration values, three unsupported facets present; base over string/int/long; holder type using it as required / optional / repeated member; every struct and '
                          'envelope (2 header parts) must delegate to each field once. (c) coroutine MIR of both helpers over symbolic stub outcomes. Outside: values that are not in the lexical '
